@@ -221,14 +221,16 @@ theorem cmp_rep_iff (r : Nat) (a b : Int) :
   · rw [div_le_div_iff_of_pos_right hpos]; exact Int.cast_le.symm
   · rw [div_left_inj' hpos.ne']; exact Int.cast_inj.symm
 
-/-- RECORDED DEVIATION: an integer secret on the LEFT of `<` against a fixed-point value subtracts
-the fixed-point 1, i.e. `2^r` units of the representation, where one unit is meant:
-`a < x` is computed as `(a + 1)·2^r ≤ x` instead of `a·2^r < x` -/
+/-- what the METHOD BODY of `LinComb.__lt__` computes on a `LinCombFxp` operand — the slip behind
+the repaired finding C14-lincomb-strict-compare-fxp, kept as the reason why `__lt__` / `__gt__` now
+return `NotImplemented` there: `other - self - 1` is fixed-point arithmetic, so the `1` is `2^r`
+units of the representation where one unit is meant, and `a < x` would come out as
+`(a + 1)·2^r ≤ x` instead of `a·2^r < x`.  `cmpV` no longer reaches this body (`cmpV_lc_fxp_strict`). -/
 theorem cmpLV_lt_fxp_val {s s' : St} {a x : LinComb} {v : Val} (hg : s.guard = none)
-    (hi : s.ignoreErrors = false) (h : cmpV .lt (.lc a) (.fxp x) s = .ok (v, s')) :
+    (hi : s.ignoreErrors = false) (h : cmpLV .lt a (.fxp x) s = .ok (v, s')) :
     ∃ r, v = .lcb r ∧
       r.value = if (a.value + 1) * 2 ^ s.resolution ≤ x.value then 1 else 0 := by
-  unfold cmpV cmpLV at h
+  unfold cmpLV at h
   simp only at h
   obtain ⟨d, s1, h1, h⟩ := bind_ok.mp h
   obtain ⟨rfl, d1, rfl, vd1⟩ := subXV_val h1
@@ -242,6 +244,33 @@ theorem cmpLV_lt_fxp_val {s s' : St} {a x : LinComb} {v : Val} (hg : s.guard = n
   simp only [rep] at vd1 vd2
   rw [vr, vd2, vd1]
   split <;> split <;> first | rfl | (exfalso; linarith)
+
+/-- the dispatch of a strict comparison with an integer secret on the left and a fixed-point value
+on the right: `LinComb.__lt__/__gt__` → `NotImplemented` → the reflected `LinCombFxp.__gt__/__lt__` -/
+theorem cmpV_lc_fxp_strict {op : Cmp} (hs : op.strict = true) (a x : LinComb) :
+    cmpV op (.lc a) (.fxp x) =
+      (do let z ← ensurefxp (.lc a); let r ← cmpLL op.mirror x z; pure (Val.lcb r)) := by
+  unfold cmpV
+  simp only [hs, if_true]
+
+/-- **repaired** (C14-lincomb-strict-compare-fxp): `a < x` and `a > x` with an integer secret `a` on
+the LEFT of a fixed-point `x` are the order of the representations `a·2^r` and `x` -/
+theorem cmpV_lc_fxp_strict_val {s s' : St} {op : Cmp} {a x : LinComb} {v : Val} (hs : op.strict = true)
+    (hg : s.guard = none) (hi : s.ignoreErrors = false)
+    (h : cmpV op (.lc a) (.fxp x) s = .ok (v, s')) :
+    Same s s' ∧ ∃ r, v = .lcb r ∧ r.value = cmpSem op (a.value * 2 ^ s.resolution) x.value := by
+  rw [cmpV_lc_fxp_strict hs] at h
+  obtain ⟨z, s1, h1, h⟩ := bind_ok.mp h
+  obtain ⟨r, s2, h2, h⟩ := bind_ok.mp h
+  obtain ⟨rfl, rfl⟩ := pure_ok' h
+  obtain ⟨rfl, vz⟩ := ensurefxp_val h1
+  obtain ⟨sm, vr⟩ := cmpLL_val hg hi h2
+  refine ⟨sm, r, rfl, ?_⟩
+  rw [vr, vz]
+  cases op <;> first
+    | (simp only [Cmp.strict, Bool.false_eq_true] at hs; done)
+    | (simp only [Cmp.mirror, cmpSem, rep]; done)
+    | (simp only [Cmp.mirror, cmpSem, rep]; split <;> split <;> first | rfl | omega)
 
 /-! ## opening and construction -/
 theorem valL_val {s s' : St} {x : LinComb} {v : Int} (h : valL x s = .ok (v, s')) :
